@@ -11,7 +11,7 @@ open OG.Gen.C12
 /-- all node predicates at once. -/
 def goodAll (e : Expr) : Bool :=
   shapeOK e && nodeOK e && pMixed e && pNeg e && pLike e && pIntegral e && pInfNan e &&
-    pCallPlain e && pRegex e && pTagDiv e
+    pCallPlain e && pRegex e && pTagDiv e && pTypes e && pDur e && pSets e
 
 mutual
 theorem allNodes_and (p q : Expr → Bool) : (e : Expr) →
@@ -54,7 +54,7 @@ theorem good_canon_atoms : (e : Expr) → allNodes goodAll e = true → PECanon 
     obtain ⟨hcl, hal⟩ := good_canon_atoms l hl
     obtain ⟨hcr, har⟩ := good_canon_atoms r hr
     simp only [goodAll, Bool.and_eq_true] at hn
-    obtain ⟨⟨⟨⟨⟨⟨⟨⟨⟨hshape, hnode⟩, hmix⟩, hneg⟩, hlike⟩, _⟩, _⟩, _⟩, hregex⟩, htag⟩ := hn
+    obtain ⟨⟨⟨⟨⟨⟨⟨⟨⟨⟨⟨⟨hshape, hnode⟩, hmix⟩, hneg⟩, hlike⟩, _⟩, _⟩, _⟩, hregex⟩, htag⟩, _⟩, _⟩, _⟩ := hn
     simp only [nodeOK, Bool.and_eq_true] at hnode
     obtain ⟨⟨hisop, hnsl⟩, hsetpos⟩ := hnode
     -- grouping
@@ -102,7 +102,7 @@ theorem good_canon_atoms : (e : Expr) → allNodes goodAll e = true → PECanon 
     obtain ⟨hn, he⟩ := h
     obtain ⟨hc, ha⟩ := good_canon_atoms e he
     simp only [goodAll, Bool.and_eq_true] at hn
-    obtain ⟨⟨⟨⟨⟨⟨⟨⟨⟨_, hnode⟩, _⟩, _⟩, _⟩, _⟩, _⟩, _⟩, hregex⟩, _⟩ := hn
+    obtain ⟨⟨⟨⟨⟨⟨⟨⟨⟨⟨⟨⟨_, hnode⟩, _⟩, _⟩, _⟩, _⟩, _⟩, _⟩, hregex⟩, _⟩, _⟩, _⟩, _⟩ := hn
     exact ⟨by simpa [PECanon] using hc, by
       simp only [AtomsOK, ha, Bool.true_and, Bool.and_eq_true]
       exact ⟨by simpa [pRegex] using hregex, by simpa [nodeOK] using hnode⟩⟩
@@ -110,7 +110,7 @@ theorem good_canon_atoms : (e : Expr) → allNodes goodAll e = true → PECanon 
     simp only [allNodes, Bool.and_eq_true] at h
     obtain ⟨hn, hargs⟩ := h
     simp only [goodAll, Bool.and_eq_true] at hn
-    obtain ⟨⟨⟨⟨⟨⟨⟨⟨⟨_, hnode⟩, _⟩, _⟩, _⟩, _⟩, hinf⟩, hplain⟩, hregex⟩, _⟩ := hn
+    obtain ⟨⟨⟨⟨⟨⟨⟨⟨⟨⟨⟨⟨_, hnode⟩, _⟩, _⟩, _⟩, _⟩, hinf⟩, hplain⟩, hregex⟩, _⟩, _⟩, _⟩, _⟩ := hn
     simp only [nodeOK, Bool.and_eq_true, decide_eq_true_eq] at hnode
     obtain ⟨hc, ha⟩ := good_args args hargs (by simpa [pRegex] using hregex) hnode.2
     exact ⟨by simpa [PECanon] using hc, by
@@ -118,28 +118,28 @@ theorem good_canon_atoms : (e : Expr) → allNodes goodAll e = true → PECanon 
       exact ⟨⟨by simpa [pCallPlain] using hplain, by simpa [pInfNan] using hinf⟩, hnode.1⟩⟩
   | .varRef name ty, h => by
     simp only [allNodes, goodAll, Bool.and_eq_true] at h
-    obtain ⟨⟨⟨⟨⟨⟨⟨⟨⟨_, hnode⟩, _⟩, _⟩, _⟩, _⟩, hinf⟩, _⟩, _⟩, _⟩ := h
+    obtain ⟨⟨⟨⟨⟨⟨⟨⟨⟨⟨⟨⟨_, _⟩, _⟩, _⟩, _⟩, _⟩, hinf⟩, _⟩, _⟩, _⟩, hty⟩, _⟩, _⟩ := h
     exact ⟨by simp [PECanon], by
       simp only [AtomsOK, Bool.and_eq_true]
-      exact ⟨by simpa [pInfNan] using hinf, by simpa [nodeOK] using hnode⟩⟩
+      exact ⟨by simpa [pInfNan] using hinf, by simpa [pTypes] using hty⟩⟩
   | .num n, h => by
     simp only [allNodes, goodAll, Bool.and_eq_true] at h
-    obtain ⟨⟨⟨⟨⟨⟨⟨⟨⟨_, hnode⟩, _⟩, _⟩, _⟩, hint⟩, _⟩, _⟩, _⟩, _⟩ := h
+    obtain ⟨⟨⟨⟨⟨⟨⟨⟨⟨⟨⟨⟨_, hnode⟩, _⟩, _⟩, _⟩, hint⟩, _⟩, _⟩, _⟩, _⟩, _⟩, _⟩, _⟩ := h
     exact ⟨by simp [PECanon], by
       simp only [AtomsOK]
       exact numRT_of n (by simpa [nodeOK] using hnode) (by simpa [pIntegral] using hint)⟩
   | .int v, h => by
     simp only [allNodes, goodAll, Bool.and_eq_true] at h
-    obtain ⟨⟨⟨⟨⟨⟨⟨⟨⟨_, hnode⟩, _⟩, _⟩, _⟩, _⟩, _⟩, _⟩, _⟩, _⟩ := h
+    obtain ⟨⟨⟨⟨⟨⟨⟨⟨⟨⟨⟨⟨_, hnode⟩, _⟩, _⟩, _⟩, _⟩, _⟩, _⟩, _⟩, _⟩, _⟩, _⟩, _⟩ := h
     exact ⟨by simp [PECanon], by simpa [AtomsOK, nodeOK] using hnode⟩
   | .dur d, h => by
     simp only [allNodes, goodAll, Bool.and_eq_true] at h
-    obtain ⟨⟨⟨⟨⟨⟨⟨⟨⟨_, hnode⟩, _⟩, _⟩, _⟩, _⟩, _⟩, _⟩, _⟩, _⟩ := h
-    exact ⟨by simp [PECanon], by simpa [AtomsOK, nodeOK] using hnode⟩
+    obtain ⟨⟨⟨⟨⟨⟨⟨⟨⟨⟨⟨⟨_, _⟩, _⟩, _⟩, _⟩, _⟩, _⟩, _⟩, _⟩, _⟩, _⟩, hd⟩, _⟩ := h
+    exact ⟨by simp [PECanon], by simpa [AtomsOK, pDur] using hd⟩
   | .set vals, h => by
     simp only [allNodes, goodAll, Bool.and_eq_true] at h
-    obtain ⟨⟨⟨⟨⟨⟨⟨⟨⟨_, hnode⟩, _⟩, _⟩, _⟩, _⟩, _⟩, _⟩, _⟩, _⟩ := h
-    exact ⟨by simp [PECanon], by simpa [AtomsOK, nodeOK] using hnode⟩
+    obtain ⟨⟨⟨⟨⟨⟨⟨⟨⟨⟨⟨⟨_, _⟩, _⟩, _⟩, _⟩, _⟩, _⟩, _⟩, _⟩, _⟩, _⟩, _⟩, hs⟩ := h
+    exact ⟨by simp [PECanon], by simpa [AtomsOK, pSets] using hs⟩
   | .uns _, h => by simp [allNodes, goodAll, nodeOK] at h
   | .numInf, h => by simp [allNodes, goodAll, nodeOK] at h
   | .numNegInf, h => by simp [allNodes, goodAll, nodeOK] at h
